@@ -403,20 +403,23 @@ impl<H: Hal, const SIZE: usize> VirtQueue<H, SIZE> {
             (*self.desc.as_ptr())[index] = self.desc_shadow[index].clone();
         }
         #[cfg(virtio_drivers_verif)]
-        crate::verif_hooks::store(crate::verif_hooks::STORE_DESC, self.queue_idx, index as u16);
+        crate::verif_hooks::store(
+            crate::verif_hooks::STORE_DESC,
+            self.queue_idx,
+            index as u16,
+        );
     }
 
     /// Returns whether there is a used element that can be popped.
     pub fn can_pop(&self) -> bool {
-        // SAFETY: `self.used` points to a valid, aligned, initialised, dereferenceable, readable
-        // instance of `UsedRing`.
-        let ready =
-            self.last_used_idx != unsafe { (*self.used.as_ptr()).idx.load(Ordering::Acquire) };
+        // SAFETY: as for the load below.
         #[cfg(virtio_drivers_verif)]
-        if !ready {
+        if self.last_used_idx == unsafe { (*self.used.as_ptr()).idx.load(Ordering::Acquire) } {
             crate::verif_hooks::spin(crate::verif_hooks::SPIN_POLL_EMPTY);
         }
-        ready
+        // SAFETY: `self.used` points to a valid, aligned, initialised, dereferenceable, readable
+        // instance of `UsedRing`.
+        self.last_used_idx != unsafe { (*self.used.as_ptr()).idx.load(Ordering::Acquire) }
     }
 
     /// Returns the descriptor index (a.k.a. token) of the next used element without popping it, or
